@@ -21,29 +21,36 @@ Definition w_C : stmt :=
           SFunc (L "method") (w_args [L "self"; L "a"] [L "k"]) [w_pass] [] None;
           SClass (L "D") [] [SAssign [EName (L "z")] (EConst (VInt 1))] []] [].
 
-(* a function defined before the class: C.method is not found *)
+(* paths through a nested class do not exist for find_in_ast: _location is parent + child only *)
 Lemma C15_refuted_lemma : ~ C15_statement.
 Proof.
-  intros H. specialize (H [w_helper; w_C] [L "C"; L "method"] eq_refl).
+  intros H. specialize (H [w_C] [L "C"; L "D"; L "z"] eq_refl).
   unfold C15_find_at in H. vm_compute in H. discriminate.
 Qed.
 
-(* ... and C.method.a resolves to the argument of the unrelated function *)
-Lemma C15_refuted_wrong_node :
-  find_view [L "C"; L "method"; L "a"] [w_helper; w_C] = Ok (Some ([0; 0; 0], PArg (mkArg (L "a") None)))
-  /\ option_map fst (resolve [L "C"; L "method"; L "a"] [w_helper; w_C]) = Some [1; 1; 0; 1].
-Proof. split; vm_compute; reflexivity. Qed.
-
-(* keyword-only arguments are never found, whatever precedes *)
-Lemma C15_refuted_kwonly :
-  find_view [L "C"; L "method"; L "k"] [w_C] = Ok None
-  /\ option_map fst (resolve [L "C"; L "method"; L "k"] [w_C]) = Some [0; 1; 1; 0].
-Proof. split; vm_compute; reflexivity. Qed.
-
-(* paths through a nested class do not exist for find_in_ast *)
 Lemma C15_refuted_depth3 :
   find_view [L "C"; L "D"; L "z"] [w_C] = Ok None
   /\ option_map fst (resolve [L "C"; L "D"; L "z"] [w_C]) = Some [0; 2; 0].
+Proof. split; vm_compute; reflexivity. Qed.
+
+(* x.y where x is an annotated assignment returns x *)
+Lemma C15_refuted_annassign_prefix :
+  find_view [L "attr"; L "y"] [SAnnAssign (EName (L "attr")) (EName (L "int")) None]
+  = Ok (Some ([0], PStmt (SAnnAssign (EName (L "attr")) (EName (L "int")) None)))
+  /\ resolve [L "attr"; L "y"] [SAnnAssign (EName (L "attr")) (EName (L "int")) None] = None.
+Proof. split; vm_compute; reflexivity. Qed.
+
+(* regressions of /repo 6d00342 (they were refutation witnesses before it): a function defined before the class
+   no longer swallows a segment, and keyword-only arguments are found *)
+Lemma C15_regression_function_before_class :
+  find_view [L "C"; L "method"] [w_helper; w_C] = Ok (resolve [L "C"; L "method"] [w_helper; w_C])
+  /\ find_view [L "C"; L "method"; L "a"] [w_helper; w_C] = Ok (resolve [L "C"; L "method"; L "a"] [w_helper; w_C])
+  /\ option_map fst (resolve [L "C"; L "method"; L "a"] [w_helper; w_C]) = Some [1; 1; 0; 1].
+Proof. repeat split; vm_compute; reflexivity. Qed.
+
+Lemma C15_regression_kwonly :
+  find_view [L "C"; L "method"; L "k"] [w_C] = Ok (resolve [L "C"; L "method"; L "k"] [w_C])
+  /\ option_map fst (resolve [L "C"; L "method"; L "k"] [w_C]) = Some [0; 1; 1; 0].
 Proof. split; vm_compute; reflexivity. Qed.
 
 (* the replacement half: D.z does not exist, yet RewriteAtQuery replaces C.D.z (its _location is [D; z]);
@@ -70,7 +77,10 @@ Proof. split; vm_compute; reflexivity. Qed.
 
 (* ------------------------------------------------------------------ non-vacuity *)
 Lemma C15_nonvacuous_lemma :
-  guard_C15 [w_C; w_helper] [L "C"; L "method"; L "a"] = true
+  guard_C15 [w_helper; w_C] [L "C"; L "method"; L "a"] = true
+  /\ guard_C15 [w_helper; w_C] [L "C"; L "method"; L "k"] = true
+  /\ guard_C15 [w_helper; w_C] [L "helper"; L "nope"] = true
+  /\ guard_C15 [w_C; w_helper] [L "C"; L "method"; L "a"] = true
   /\ guard_C15 [w_C; w_helper] [L "C"; L "attr"] = true
   /\ guard_C15 [w_C; w_helper] [L "C"] = true
   /\ guard_C15 [w_C; w_helper] [L "C"; L "nope"] = true
@@ -110,39 +120,30 @@ Proof.
 Qed.
 
 (* ------------------------------------------------------------------ class-free corollaries of the lookup half *)
-Lemma before_member_incl : forall y b c, In c (before_member y b) -> In c b.
+(* single-target assignments at top level: every name resolves correctly, whatever functions there are *)
+Theorem C15_toplevel : forall m x,
+    supported m = true -> forallb assign_ok m = true -> C15_find_at m [x].
 Proof.
-  intros y b c H. unfold before_member in H.
-  destruct (split_member y b) as [[[pre t] post]|] eqn:E; [|assumption].
-  destruct (split_member_some _ _ _ _ _ E) as [Hb _]. subst b. apply in_or_app. left. assumption.
+  intros m x Hs Hok. apply C15_partial_lemma. unfold guard_C15. rewrite Hs. simpl.
+  unfold leaf_lookup_class. rewrite Hok. reflexivity.
 Qed.
 
-Lemma no_func_no_stray : forall y b, existsb is_func b = false -> existsb (func_has_posarg y) (before_member y b) = false.
+(* function.arg: always right (positional or keyword-only, existing or not), whatever precedes the function *)
+Theorem C15_function_arg : forall m x y pre args body d r post,
+    supported m = true -> split_member x m = Some (pre, SFunc x args body d r, post) ->
+    C15_find_at m [x; y].
 Proof.
-  intros y b H. destruct (existsb (func_has_posarg y) (before_member y b)) eqn:E; [|reflexivity].
-  apply existsb_exists in E. destruct E as [c [Hin Hc]]. apply before_member_incl in Hin.
-  pose proof (existsb_In_false _ _ _ c H Hin) as Hf. rewrite (not_func_no_posarg y c Hf) in Hc. discriminate.
+  intros m x y pre args body d r post Hs H1.
+  apply C15_partial_lemma. unfold guard_C15. rewrite Hs. simpl. rewrite H1. reflexivity.
 Qed.
 
-(* a module without top-level functions and with single-target assignments: every name resolves correctly *)
-Theorem C15_toplevel_no_functions : forall m x,
-    supported m = true -> forallb assign_ok m = true -> existsb is_func m = false ->
-    C15_find_at m [x].
-Proof.
-  intros m x Hs Hok Hf. apply C15_partial_lemma. unfold guard_C15. rewrite Hs. simpl.
-  unfold leaf_lookup_class. rewrite Hok. simpl. rewrite no_func_no_stray by assumption. reflexivity.
-Qed.
-
-(* Class.method.arg for a positional argument, when no function precedes the class at top level nor the method in
-   the class body (each being the first member of that name) *)
+(* Class.method.arg: always right, whatever precedes the class and the method *)
 Theorem C15_class_method_arg : forall m x y z pre bs body d post pre' args body' d' r' post',
     supported m = true ->
-    split_member x m = Some (pre, SClass x bs body d, post) -> existsb is_func pre = false ->
-    split_member y body = Some (pre', SFunc y args body' d' r', post') -> existsb is_func pre' = false ->
-    has_arg_named z (ar_args args) = true ->
+    split_member x m = Some (pre, SClass x bs body d, post) ->
+    split_member y body = Some (pre', SFunc y args body' d' r', post') ->
     C15_find_at m [x; y; z].
 Proof.
-  intros m x y z pre bs body d post pre' args body' d' r' post' Hs H1 H2 H3 H4 H5.
-  apply C15_partial_lemma. unfold guard_C15. rewrite Hs. simpl. rewrite H1, H2, H3, H4.
-  unfold arg_lookup_class. rewrite H5. reflexivity.
+  intros m x y z pre bs body d post pre' args body' d' r' post' Hs H1 H2.
+  apply C15_partial_lemma. unfold guard_C15. rewrite Hs. simpl. rewrite H1, H2. reflexivity.
 Qed.
